@@ -859,7 +859,7 @@ func (en *evalEnv) call(x *ECall) ev {
 				if !ok || at.Sort != SObj {
 					en.fail("%s(x): x must be an interface value", x.Fun)
 				}
-				return ev{e.pureMethod(x.Fun, rs, at), nil}
+				return ev{e.pureMethod(x.Fun, rs, at), en.pureMethodType(pm[:i], x.Fun)}
 			}
 		}
 	}
@@ -1280,4 +1280,23 @@ func loopRank(fn *ssa.Function, h *ssa.BasicBlock, key string) int {
 		}
 	}
 	return 0
+}
+
+// pureMethodType: the Go result type of an assumed-pure interface method (nil when not found).
+func (en *evalEnv) pureMethodType(iface, method string) types.Type {
+	for _, sp := range en.e.P.SPkgs {
+		if o := sp.Pkg.Scope().Lookup(iface); o != nil {
+			if it, ok := o.Type().Underlying().(*types.Interface); ok {
+				for i := 0; i < it.NumMethods(); i++ {
+					if it.Method(i).Name() == method {
+						sig := it.Method(i).Type().(*types.Signature)
+						if sig.Results().Len() == 1 {
+							return sig.Results().At(0).Type()
+						}
+					}
+				}
+			}
+		}
+	}
+	return nil
 }
